@@ -10,7 +10,7 @@ import shutil
 from ..common import seed_int, case_hash
 
 CLASSES = ["plain", "coarse", "misaligned", "dynamic", "passes", "dynpass"]
-WEIGHTS = {"plain": 5, "coarse": 3, "misaligned": 2, "dynamic": 2, "passes": 4, "dynpass": 1}
+WEIGHTS = {"plain": 5, "coarse": 3, "misaligned": 2, "dynamic": 2, "passes": 6, "dynpass": 1}
 
 
 class StrlCheck:
